@@ -27,13 +27,14 @@ type c20BurstCase struct {
 
 func TestVerifC20Layer2Burst(t *testing.T) {
 	vw.Run(t, vw.Options{Property: "C20", Engine: "layer2-burst",
-		Rule:        "1100..4000 services are announced and re-announced in a loop for 1.3..1.8 s (longer than one tick of the periodic announcement loop, more entries than its queue holds) against the real spamLoop goroutine while 1..2 goroutines query status and the answer decision; the announcing side must finish (watchdog 15 s); every run counts as non-trivial",
+		Rule:        "1100..4000 services are announced and re-announced in a loop for 1.3..1.8 s (longer than one tick of the periodic announcement loop, more entries than its queue holds) against the real spamLoop goroutine (two of them share one address with different interface lists) while 1..2 goroutines query status and the answer decision; the announcing side must finish (watchdog 15 s) and what is stored for the two sharers must be what they were announced with; every run counts as non-trivial",
 		Assumptions: []string{"real time; a watchdog of 15 s (normal completion: the configured duration) decides 'blocked for good'"}},
 		func(rt *rapid.T) c20BurstCase {
 			return c20BurstCase{Services: rapid.IntRange(1100, 4000).Draw(rt, "services"), Millis: rapid.IntRange(1300, 1800).Draw(rt, "millis"), Readers: rapid.IntRange(1, 2).Draw(rt, "readers")}
 		},
 		func(c c20BurstCase, tr *vw.Trace) *vw.Violation {
-			a := VerifNewAnnounce([]string{"ifA"})
+			a := VerifNewAnnounce([]string{"ifA", "ifB"})
+			shared := net.IPv4(10, 200, 0, 1)
 			a.spamCh = make(chan IPAdvertisement, 1024) // as New()
 			go a.spamLoop()
 			tr.NonTrivial()
@@ -43,6 +44,10 @@ func TestVerifC20Layer2Burst(t *testing.T) {
 			stop := make(chan struct{})
 			go func() {
 				defer close(done)
+				// two services share one address with different interface lists, announced once: the periodic loop merges
+				// their interfaces for its announcements and must not touch what is stored for either of them
+				a.SetBalancer("ns/shareA", NewIPAdvertisement(shared, false, sets.New("ifA")))
+				a.SetBalancer("ns/shareB", NewIPAdvertisement(shared, false, sets.New("ifB")))
 				for time.Now().Before(deadline) {
 					for i := 0; i < c.Services; i++ {
 						ip := net.IPv4(10, byte(i>>16), byte(i>>8), byte(i))
@@ -60,6 +65,11 @@ func TestVerifC20Layer2Burst(t *testing.T) {
 						default:
 						}
 						_ = a.GetStatus(types.NamespacedName{Namespace: "ns", Name: "svc1"})
+						for _, adv := range a.GetStatus(types.NamespacedName{Namespace: "ns", Name: "shareA"}) {
+							for range adv.GetInterfaces() { // as the layer-2 status reconciler does, after the lock is released
+							}
+						}
+						_ = a.shouldAnnounce(shared, "ifB")
 						_ = a.shouldAnnounce(net.IPv4(10, 0, 0, 1), "ifA")
 						atomic.AddInt64(&queries, 1)
 						time.Sleep(50 * time.Microsecond)
@@ -76,6 +86,15 @@ func TestVerifC20Layer2Burst(t *testing.T) {
 			// drain what the loop has not consumed, so the goroutine parks on an empty queue
 			for len(a.spamCh) > 0 {
 				time.Sleep(time.Millisecond)
+			}
+			// no event changed what the two sharers advertise: after one more tick of the loop the announcer must still
+			// hold exactly what it was given
+			time.Sleep(1200 * time.Millisecond)
+			snap := a.VerifSnapshot()
+			for svc, want := range map[string]string{"ns/shareA": "ifA", "ns/shareB": "ifB"} {
+				if got := snap[svc]; len(got) != 1 || got[0].All || len(got[0].Ifs) != 1 || got[0].Ifs[0] != want {
+					return vw.Violationf("stored-advertisement-changed-without-an-event", "%s was announced on [%s] only and never re-announced otherwise, the announcer now holds %+v for it", svc, want, got)
+				}
 			}
 			return nil
 		})
